@@ -12,6 +12,8 @@ import Anko.Proofs.EvalProbe
 import Anko.Gen.Operators
 import Anko.Gen.CallFlow
 import Anko.Props.CallFlowTable
+import Anko.Gen.ExprFlow
+import Anko.Props.ExprFlowTable
 
 set_option linter.unusedSectionVars false
 set_option linter.unusedSimpArgs false
@@ -305,5 +307,14 @@ expression is evaluated (once, in source order), where the count is checked (bef
 call, which path a callee takes. A new fast path, an argument evaluated in another place or a second time, a check moved behind an
 evaluation makes the tables differ. -/
 theorem calls_evaluate_their_arguments_as_modelled : Gen.CallFlow.leaves = Tables.callFlow := by decide +kernel
+
+/-! ### The expression dispatcher and the forms with several operands in the source (regenerated: Gen/ExprFlow)
+
+Every leaf statement of invokeExpr (identifiers, literals, parentheses, function literals, the hand-over to the operator, call, index ... functions) and of the
+list literal, map literal, `?:`, `??`, assignment-expression and `in` functions, with the conditions it stands under, is the one written down in
+Props/ExprFlowTable next to the model's evalExpr: which operand is evaluated where, once, and which is skipped. An operand evaluated again, a reordered
+pair, a condition tested on another value shows as a difference. Any edit of these functions - also a harmless one - breaks this obligation by name; the check then
+searches model and implementation for a failing input (DESIGN.md 13.3). -/
+theorem expressions_evaluate_their_operands_as_modelled : Gen.ExprFlow.leaves = Tables.exprFlow := by decide +kernel
 
 end Anko.C07
